@@ -64,6 +64,16 @@ CHECKS = {
             'Exhaustive class selection for Thumb-16 and Thumb-32; every Thumb-16 word operand-compared inside/outside/last '
             'in IT; fetch length checked for all 2^16 first halfwords.',
             'Trusted: vf/ref/spec_t16.py, spec_t32.py; same tracer assumption.', 'DESIGN.md §2 C07'),
+    'C01': ('runtime monitoring: lock-step differential monitor - real emulate_cycle() vs an independent reference '
+            'step from the same snapshot, every location compared',
+            'Words generated from each of the 153 data-processing encoding rows, corner-heavy operands, all modes, arch '
+            '4..7, inside/outside IT; held on the sampled executions.',
+            'Trusted: the reference model vf/ref (written from the ARM ARM pseudocode); known findings are booked only '
+            'through executable deviation models.', 'DESIGN.md §2 C01'),
+    'C09': ('runtime monitoring: lock-step differential monitor over the multiply/divide/saturating/parallel/extend/'
+            'bit-field/reversal encodings with a lane-boundary operand pool',
+            'Every one of the ~250 encoding rows sampled with lane-boundary operands, prior Q/GE random; full-state diff.',
+            'Trusted: vf/ref/sem_dp.py.', 'DESIGN.md §2 C09'),
 }
 
 NOT_APPLICABLE = {}
